@@ -5,6 +5,7 @@ from collections import deque
 from decimal import Decimal
 from enum import Enum, EnumMeta
 from functools import partial
+from itertools import tee
 from typing import (Any, AsyncGenerator, Callable, Dict, Generator, List,
                     Mapping, Optional, Tuple, Type, TypeVar, Union, Iterator)
 
@@ -98,6 +99,22 @@ def register_forward_ref(
             return annotation
         # raise TypeError(f'{repr(forward_key)}: Unsupported ForwardRef: {annotation}')
     return annotation
+
+
+def trial_values(value):
+    """
+    the conditions of a combined type are tried one after the other, several times over:
+    a one-shot iterator is read through a copy per trial, so that the items a failed trial consumed
+    are still there for the next one (any other value is given as it is)
+    """
+    if not isinstance(value, typing.Iterator):
+        return lambda: value
+    source = [value]
+
+    def branch():
+        source[0], copy = tee(source[0])
+        return copy
+    return branch
 
 
 class LogicalType(type):  # noqa
@@ -395,6 +412,8 @@ class LogicalType(type):  # noqa
                 if type(value) == con:
                     return value
 
+            given = trial_values(value)
+
             # 2. try to transform in strict mode
             if not context.options.no_data_loss or not context.options.no_explicit_cast:
                 # a trial pass only finds out whether a condition fits as it is: the 'exclude' / 'preserve'
@@ -408,7 +427,7 @@ class LogicalType(type):  # noqa
                     with context.enter(cls.combinator, options=strict_options) as new_context:
                         try:
                             # error isolation
-                            val = new_context.transformer(value, con)
+                            val = new_context.transformer(given(), con)
                         except Exception as e:
                             context.collect_tmp_error(e)
                         else:
@@ -427,7 +446,7 @@ class LogicalType(type):  # noqa
                     with context.enter(cls.combinator, options=no_loss_options) as new_context:
                         try:
                             # error isolation
-                            val = new_context.transformer(value, con)
+                            val = new_context.transformer(given(), con)
                         except Exception as e:
                             context.collect_tmp_error(e)
                         else:
@@ -446,7 +465,7 @@ class LogicalType(type):  # noqa
                     with context.enter(cls.combinator, options=throw_options) as new_context:
                         try:
                             # error isolation
-                            val = new_context.transformer(value, con)
+                            val = new_context.transformer(given(), con)
                         except Exception as e:
                             context.collect_tmp_error(e)
                         else:
@@ -458,7 +477,7 @@ class LogicalType(type):  # noqa
                 with context.enter(cls.combinator) as new_context:
                     try:
                         # error isolation
-                        val = new_context.transformer(value, con)
+                        val = new_context.transformer(given(), con)
                     except Exception as e:
                         context.collect_tmp_error(e)
                     else:
@@ -482,14 +501,14 @@ class LogicalType(type):  # noqa
             if {options.invalid_items, options.invalid_keys, options.invalid_values} != {options.THROW}:
                 passes.append(None)
 
-            given = value
+            given = trial_values(value)
             for pass_options in passes:
                 violated = False
                 for con in cls.args:
                     with context.enter(cls.combinator, options=pass_options) as new_context:
                         try:
                             # (every condition is tested on the value as it was given)
-                            converted = new_context.transformer(given, con)
+                            converted = new_context.transformer(given(), con)
                             if xor is None:
                                 xor = con
                                 value = converted
